@@ -246,6 +246,15 @@ pub fn drive(log: &mut Log) {
         cols.extend(nxt.iter().filter(|c| c[0] != b'"').cloned());
         cur = nxt;
     }
+    // quick tier: every column up to length maxlen - 1, and a third of the longest ones
+    // (which third rotates with the seed); thorough: all of them
+    if !log.opts.thorough() {
+        let mut k: u64 = 0;
+        cols.retain(|c| {
+            k += 1;
+            c.len() < maxlen || k % 3 == seed % 3
+        });
+    }
     for d in DIALECTS.iter() {
         for chunk in cols.chunks(60) {
             case += 1;
